@@ -7,7 +7,7 @@ import ast
 from ..cfg import build_cfg, calls_in, node_calls
 from ..core import Ctx, property_info, rule, share
 from ..model import AnalysisError, FuncInfo, walk_no_nested
-from ..q import call_name_of, control_deps, A, MUTATORS, asrc, is_self_attr, kwarg, names_in, root_name, stores, unparse
+from ..q import L, call_name_of, control_deps, flows, forms, A, MUTATORS, asrc, is_self_attr, kwarg, names_in, root_name, stores, unparse
 from ..state import CONSTRUCTION, Site, collect_sites, defaultdict_attrs, persistent_classes, self_reads, value_mutated_after
 from .c03 import who_may_write_map
 
@@ -79,8 +79,8 @@ def _classify(ctx: Ctx, s: Site) -> tuple[bool, str]:
         n = g.node_of(s.node)
         k = unparse(s.key) if s.key is not None else ""
         for t in g.nodes:
-            if t.kind == "test" and isinstance(t.ast, ast.Compare) and isinstance(t.ast.ops[0], ast.In) and unparse(t.ast.left) == k \
-                    and is_self_attr(t.ast.comparators[0], s.attr) and n is not None and g.only_if(n.id, t.id, True):
+            if t.kind == "test" and isinstance(t.ast, ast.Compare) and len(t.ast.ops) == 1 and isinstance(t.ast.ops[0], (ast.In, ast.NotIn)) and unparse(t.ast.left) == k \
+                    and is_self_attr(t.ast.comparators[0], s.attr) and n is not None and g.only_if(n.id, t.id, isinstance(t.ast.ops[0], ast.In)):
                 return True, "subscript load guarded by a membership test (cannot insert)"
         return False, "subscript load on a defaultdict inserts a key: a read path writes the shared index (and can break a concurrent iteration)"
     return False, f"in-place mutation ({s.kind}) of shared state outside a designated writer"
@@ -135,12 +135,17 @@ def _marker_obligations(ctx: Ctx) -> None:
                msg="the marker becomes valid before the index is rebuilt: other threads skip the rebuild and read the stale / empty index (no class found, xsi:type ignored)")
     lm = ctx.repo.func("xsdata.formats.dataclass.context:XmlContext.local_names_match")
     ev = [(st, tgt, v) for st, tgt, v in stores(lm.node) if isinstance(tgt, ast.Subscript) and is_self_attr(tgt.value, "xsi_cache")]
+    glm = build_cfg(lm.node)
     for st, tgt, v in ev:
-        comp_ok = isinstance(v, ast.ListComp) and len(v.generators) == 1 and v.generators[0].ifs and any(
-            isinstance(c, ast.Compare) and isinstance(c.ops[0], (ast.IsNot, ast.NotEq)) and "clazz" in {unparse(c.left), unparse(c.comparators[0])} for c in v.generators[0].ifs)
-        src = unparse(v.generators[0].iter) if isinstance(v, ast.ListComp) else ""
-        old_entry = src == f"self.xsi_cache[{unparse(tgt.slice)}]" or any(unparse(t2) == src and unparse(v2) == f"self.xsi_cache[{unparse(tgt.slice)}]" for _, t2, v2 in stores(lm.node) if v2 is not None)
-        ctx.ob("local_names_match evicts exactly the unbindable class: the new entry is the old entry filtered by `is not clazz`", comp_ok and old_entry, at=lm, node=st, construct="eviction filter",
+        n = glm.node_of(st)
+        leaves = [leaf for leaf, _ in flows(lm, n, v)] if n is not None and v is not None else []
+        ok = bool(leaves)
+        for leaf in leaves:
+            comp_ok = isinstance(leaf, ast.ListComp) and len(leaf.generators) == 1 and bool(leaf.generators[0].ifs) and any(
+                isinstance(c, ast.Compare) and isinstance(c.ops[0], (ast.IsNot, ast.NotEq)) and "clazz" in {unparse(c.left), unparse(c.comparators[0])} for c in leaf.generators[0].ifs)
+            src_forms = forms(lm, n, leaf.generators[0].iter) if comp_ok else set()
+            ok = ok and comp_ok and A(f"self.xsi_cache[{L(lm, tgt.slice)}]") in {x for x in src_forms} | {A("self.xsi_cache[_]")} and any(x == "self.xsi_cache[_]" for x in src_forms)
+        ctx.ob("local_names_match evicts exactly the unbindable class: the new entry is the old entry filtered by `is not clazz`", ok, at=lm, node=st, construct="eviction filter",
                msg="the eviction drops other classes that share the qualified name: after one failing decode a shared context no longer finds a valid model by qname")
     b = ctx.repo.func("xsdata.formats.dataclass.context:XmlContext.build_xsi_cache")
     g = build_cfg(b.node)
@@ -499,8 +504,8 @@ def readers_tolerate_publish(ctx: Ctx) -> None:
             for x in idx:
                 k = unparse(x.slice)
                 nx = g.node_of(x)
-                guarded = any(t.kind == "test" and isinstance(t.ast, ast.Compare) and isinstance(t.ast.ops[0], ast.In) and unparse(t.ast.left) == k and nx is not None and g.only_if(nx.id, t.id, True)
-                              for t in g.nodes)
+                guarded = any(t.kind == "test" and isinstance(t.ast, ast.Compare) and len(t.ast.ops) == 1 and isinstance(t.ast.ops[0], (ast.In, ast.NotIn)) and unparse(t.ast.left) == k and nx is not None
+                              and g.only_if(nx.id, t.id, isinstance(t.ast.ops[0], ast.In)) for t in g.nodes)
                 ok = ok and guarded
             ctx.ob(f"XmlContext.{m.name}: repeated reads of swap-published self.{attr} are membership-guarded index reads", ok, at=m, construct=f"reads {attr}",
                    msg="an unguarded second read may observe another (new) index object")
@@ -510,7 +515,8 @@ def readers_tolerate_publish(ctx: Ctx) -> None:
     dels = [s for s in _sites(ctx) if s.attr == "cache" and s.kind in ("delitem", "mutator") and s.fi.name != "reset"]
     ctx.ob("XmlContext.cache entries are never removed outside reset() (so build() may re-read the key it just checked)", not dels, at=b, construct="cache monotone", msg=f"removals: {[s.detail for s in dels]}")
     ft = ctx.repo.func(f"{ctxq}.find_types")
-    ctx.ob("find_types reads the index with one get() and returns the local result", A("_=self.xsi_cache.get(_);if_:;return_") in asrc(ft), at=ft, construct="find_types single read", msg="check-then-reread of the shared index")
+    loads = [x for x in walk_no_nested(ft.node) if is_self_attr(x, "xsi_cache") and isinstance(x.ctx, ast.Load)]
+    ctx.ob("find_types reads the shared index exactly once (one get(), then the local result)", len(loads) == 1, at=ft, construct="find_types single read", msg="check-then-reread of the shared index")
 
 
 @rule("C19.R3")
